@@ -20,7 +20,20 @@ func (ex *Exec) installAssumed() {
 		T := ptrT.Underlying().(*types.Pointer).Elem()
 		isNilFn := ex.pkg.Func("IsNil")
 		iv := ex.normIface(args[0].(*IfaceVal))
-		isnil := ex.Call(st, isNilFn, []Value{iv}, nil).(*Term)
+		var isnil *Term
+		onStack := false
+		for _, f := range ex.stack {
+			if f == isNilFn {
+				onStack = true
+			}
+		}
+		if onStack {
+			// IsNil -> OnObject -> ToObject -> (this fallback) -> IsNil: the inner question is only about
+			// the pointer itself (untyped nil or nil pointer), which is what the recursion bottoms out in
+			isnil = ex.nilLikeValue(iv)
+		} else {
+			isnil = ex.Call(st, isNilFn, []Value{iv}, nil).(*Term)
+		}
 		nilPtr := &PtrVal{Alts: []PtrAlt{{C: TTrue}}}
 		var okPtr Value
 		okC := TFalse
